@@ -14,7 +14,7 @@ class KaniUnit:
 
     def prepare(self, scratch):
         dst = os.path.join(scratch, "crate")
-        rc, so, se, _ = core.run(["rsync", "-a", "--exclude", "target", "--exclude", ".git", core.REPO + "/", dst + "/"])
+        rc, so, se, _ = core.run(["rsync", "-r", "--links", "--exclude", "target", "--exclude", ".git", core.REPO + "/", dst + "/"])
         if rc != 0:
             raise Undecided("rsync failed: " + se)
         os.makedirs(os.path.join(dst, ".cargo"), exist_ok=True)
@@ -38,14 +38,23 @@ class KaniUnit:
         return dst
 
     def run(self, tier="quick", only=None, playback=True, jobs=None):
-        scratch = core.scratch_root()
+        # fixed scratch path per unit (stable cargo package id: artifacts are overwritten, not accumulated),
+        # serialised by a lock; the copy is recreated from /repo's working tree on every run
+        import fcntl
+        base = os.path.join(os.environ.get("VERIF_SCRATCH", "/var/tmp"), "p2sh-verif-kani")
+        os.makedirs(base, exist_ok=True)
+        scratch = os.path.join(base, self.name)
+        lockf = open(scratch + ".lock", "w")
+        fcntl.flock(lockf, fcntl.LOCK_EX)
+        shutil.rmtree(scratch, ignore_errors=True)
+        os.makedirs(scratch)
         try:
             dst = self.prepare(scratch)
             hs = [h for h in self.spec["harnesses"]
                   if (tier == "thorough" or not h.get("thorough_only")) and (only is None or h["name"] in only)]
             if not hs:
                 return KaniResult(self, [], "", "", 0.0, "")
-            tdir = os.path.join(core.CACHE, "kani-target")
+            tdir = os.path.join(core.CACHE, "kani-target-%s" % self.name)
             os.makedirs(tdir, exist_ok=True)
             cmd = ["cargo", "kani", "--target-dir", tdir, "-Z", "function-contracts", "-Z", "stubbing"]
             cmd += self.spec.get("flags", [])
@@ -77,6 +86,8 @@ class KaniUnit:
             return res
         finally:
             shutil.rmtree(scratch, ignore_errors=True)
+            fcntl.flock(lockf, fcntl.LOCK_UN)
+            lockf.close()
 
 
 class KaniResult:
